@@ -68,7 +68,7 @@ def find_child(
     Find an element with *child_tag* in *parent* and return ``(child, index)``
     or ``(None, None)`` if not found. If *id* is provided, it will be searched
     for, otherwise the first child will be returned. An *id* of ``None`` (a
-    blank ID tag) matches nothing.
+    blank ID tag) matches nothing, and a child without an ID tag is never a match.
     """
     if id is None:
         return (None, None)
@@ -76,7 +76,7 @@ def find_child(
         if child.tag == child_tag:
             if id is _ANY:
                 return (child, i)
-            child_id = child.find(f'{child_tag}ID').text
-            if child_id == id:
+            child_id_tag = child.find(f'{child_tag}ID')
+            if child_id_tag is not None and child_id_tag.text == id:
                 return (child, i)
     return (None, None)
